@@ -13,6 +13,7 @@ import (
 	"sort"
 	"strings"
 
+	"github.com/blinklabs-io/gouroboros/cbor"
 	"github.com/blinklabs-io/gouroboros/ledger"
 	"github.com/blinklabs-io/gouroboros/ledger/alonzo"
 	"github.com/blinklabs-io/gouroboros/ledger/babbage"
@@ -119,6 +120,7 @@ type rcase struct {
 	Used     []uint             `json:"used,omitempty"`
 	Cms      map[string][]int64 `json:"cost_models,omitempty"`
 	NilEmpty bool               `json:"nil_for_empty,omitempty"`
+	Steps    []hstep            `json:"steps,omitempty"` // kind=hist: the whole history up to the reported validation
 	RepV     uint               `json:"rep_version,omitempty"`
 	RepN     int                `json:"rep_len,omitempty"`
 	RepZ     int64              `json:"rep_value,omitempty"`
@@ -711,6 +713,9 @@ func optKind(k int, ok bool) string {
 // UtxoValidateScriptDataHash (taken from its UtxoValidationRules).
 func runRule(c *vh.Ctx, cf *vh.CaseFile, e *eraT, raw []byte, utxoHex map[string]string, cms map[uint][]int64, nilEmpty bool, class string) bool {
 	rc := rcase{Kind: "rule", Era: e.id, Tx: hex.EncodeToString(raw), Utxos: utxoHex, Cms: cmsJSON(cms), NilEmpty: nilEmpty}
+	if rcOverride != nil {
+		rc = *rcOverride
+	}
 	c.Begin(rc)
 	tx, err := ledger.NewTransactionFromCbor(e.id, raw)
 	if err != nil {
@@ -737,11 +742,15 @@ func runRule(c *vh.Ctx, cf *vh.CaseFile, e *eraT, raw []byte, utxoHex map[string
 	}
 	rule := findRule(e.rules, "UtxoValidateScriptDataHash")
 	if rule == nil {
-		c.Res.Violate("monitor", "rule-missing-from-list:"+e.name, "UtxoValidationRules no longer contains UtxoValidateScriptDataHash", rc)
+		c.Res.Violate("monitor", keyPrefix+"rule-missing-from-list:"+e.name, "UtxoValidationRules no longer contains UtxoValidateScriptDataHash", rc)
 		return true
 	}
 	nilCM = nilEmpty
-	rerr := rule(tx, 0, ls, e.pp(cms))
+	var pp common.ProtocolParameters = ppOverride
+	if pp == nil {
+		pp = e.pp(cms)
+	}
+	rerr := rule(tx, 0, ls, pp)
 	gotClass, gotComputed := classOf(rerr)
 
 	// ---- the transaction as the property sees it (independent walk) --------
@@ -877,19 +886,19 @@ func runRule(c *vh.Ctx, cf *vh.CaseFile, e *eraT, raw []byte, utxoHex map[string
 	case unresolvedRef:
 		// outside the property: the rule cannot know the languages; any rejection is fine
 		if accepted && required {
-			c.Res.Violate("monitor", "accepted-with-unresolved-reference-input:"+e.name, "rule accepted although a reference input could not be resolved", rc)
+			c.Res.Violate("monitor", keyPrefix+"accepted-with-unresolved-reference-input:"+e.name, "rule accepted although a reference input could not be resolved", rc)
 		}
 	case !required && declared != nil && accepted:
-		c.Res.Violate("monitor", "extraneous-hash-accepted:"+e.name, "a declared script data hash without redeemers or datums was accepted", rc)
+		c.Res.Violate("monitor", keyPrefix+"extraneous-hash-accepted:"+e.name, "a declared script data hash without redeemers or datums was accepted", rc)
 	case !required && declared == nil && !accepted:
-		c.Res.Violate("monitor", "plain-tx-rejected:"+e.name, fmt.Sprintf("no redeemers, datums or hash, yet the rule failed: %v", rerr), rc)
+		c.Res.Violate("monitor", keyPrefix+"plain-tx-rejected:"+e.name, fmt.Sprintf("no redeemers, datums or hash, yet the rule failed: %v", rerr), rc)
 	case required && declared == nil && accepted:
-		c.Res.Violate("monitor", "missing-hash-accepted:"+e.name, "redeemers or datums present, no declared hash, accepted", rc)
+		c.Res.Violate("monitor", keyPrefix+"missing-hash-accepted:"+e.name, "redeemers or datums present, no declared hash, accepted", rc)
 	case required && declared != nil && accepted && hclass != "correct":
-		c.Res.Violate("monitor", "wrong-hash-accepted:"+shapeKey(e, redIt, nRed, datIt, nDat, used),
+		c.Res.Violate("monitor", keyPrefix+"wrong-hash-accepted:"+shapeKey(e, redIt, nRed, datIt, nDat, used),
 			fmt.Sprintf("declared %x accepted, Blake2b-256(redeemers|datums|language views) = %x", declared, expect), rc)
 	case required && hclass == "correct" && !accepted:
-		c.Res.Violate("monitor", "correct-hash-rejected:"+shapeKey(e, redIt, nRed, datIt, nDat, used),
+		c.Res.Violate("monitor", keyPrefix+"correct-hash-rejected:"+shapeKey(e, redIt, nRed, datIt, nDat, used),
 			fmt.Sprintf("declared hash equals the specified one (%x) but the rule failed: %v", expect, rerr), rc)
 	}
 	if required || declared != nil {
@@ -950,6 +959,354 @@ func shapeKey(e *eraT, redIt *vh.Item, nRed int, datIt *vh.Item, nDat int, used 
 		return "nil-cost-model/" + e.name
 	}
 	return fmt.Sprintf("%s/red=%s/dat=%s/langs=%v", e.name, cnt(redIt, nRed), cnt(datIt, nDat), used)
+}
+
+// ---------------------------------------------------------------------------
+// validation histories on long-lived protocol-parameter objects.
+// The model is a function of the CURRENT cost models (C31_rule_current_cost_models);
+// the implementation is handed the same parameter object again and again while
+// its cost models are changed in place, so anything it remembers about an
+// earlier call (memoised language views, cached hashes ...) shows up as a
+// verdict that differs from the stateless model / the specification.
+
+var (
+	ppOverride common.ProtocolParameters
+	rcOverride *rcase
+	keyPrefix  string
+)
+
+type hstep struct {
+	Op    string            `json:"op"` // validate | direct | update | genesis
+	Obj   int               `json:"obj"`
+	V     uint              `json:"version,omitempty"`
+	CM    []int64           `json:"cost_model,omitempty"`
+	Tx    string            `json:"tx,omitempty"`
+	Utxos map[string]string `json:"utxos,omitempty"`
+	Class string            `json:"class,omitempty"`
+}
+
+// costModelsOf returns the map currently stored in the parameter object.
+func costModelsOf(pp common.ProtocolParameters) *map[uint][]int64 {
+	switch p := pp.(type) {
+	case *alonzo.AlonzoProtocolParameters:
+		return &p.CostModels
+	case *babbage.BabbageProtocolParameters:
+		return &p.CostModels
+	case *conway.ConwayProtocolParameters:
+		return &p.CostModels
+	case *dijkstra.DijkstraProtocolParameters:
+		return &p.CostModels
+	}
+	return nil
+}
+
+func snapshot(pp common.ProtocolParameters) map[uint][]int64 {
+	out := map[uint][]int64{}
+	for k, v := range *costModelsOf(pp) {
+		out[k] = append([]int64{}, v...)
+	}
+	return out
+}
+
+// applyUpdate feeds a real protocol-parameter-update payload {18: {v: [...]}}
+// (decoded from CBOR into the era's update type) to the era's Update method.
+func applyUpdate(pp common.ProtocolParameters, v uint, cm []int64) {
+	payload := vh.M(vh.U(18), vh.M(vh.U(uint64(v)), costList(cm, false))).Enc()
+	lit := map[uint][]int64{v: append([]int64{}, cm...)}
+	switch p := pp.(type) {
+	case *alonzo.AlonzoProtocolParameters:
+		var u alonzo.AlonzoProtocolParameterUpdate
+		if _, err := cbor.Decode(payload, &u); err != nil || u.CostModels == nil {
+			u = alonzo.AlonzoProtocolParameterUpdate{CostModels: lit}
+		}
+		p.Update(&u)
+	case *babbage.BabbageProtocolParameters:
+		var u babbage.BabbageProtocolParameterUpdate
+		if _, err := cbor.Decode(payload, &u); err != nil || u.CostModels == nil {
+			u = babbage.BabbageProtocolParameterUpdate{CostModels: lit}
+		}
+		p.Update(&u)
+	case *conway.ConwayProtocolParameters:
+		var u conway.ConwayProtocolParameterUpdate
+		if _, err := cbor.Decode(payload, &u); err != nil || u.CostModels == nil {
+			u = conway.ConwayProtocolParameterUpdate{CostModels: lit}
+		}
+		p.Update(&u)
+	case *dijkstra.DijkstraProtocolParameters:
+		var u dijkstra.DijkstraProtocolParameterUpdate
+		if _, err := cbor.Decode(payload, &u); err != nil || u.CostModels == nil {
+			u = dijkstra.DijkstraProtocolParameterUpdate{CostModels: lit}
+		}
+		p.Update(&u)
+		if !reflect.DeepEqual(p.CostModels[v], lit[v]) {
+			// the Dijkstra wrapper validates unrelated fields first; go through the embedded Conway update
+			p.ConwayProtocolParameters.Update(&conway.ConwayProtocolParameterUpdate{CostModels: lit})
+		}
+	}
+}
+
+// applyGenesis goes through UpdateFromGenesis where the era has one that
+// carries cost models; returns the version it (re)set, or false.
+func applyGenesis(pp common.ProtocolParameters, cm []int64) (uint, bool) {
+	switch p := pp.(type) {
+	case *alonzo.AlonzoProtocolParameters:
+		long := append([]int64{}, cm...)
+		for len(long) < 166 {
+			long = append(long, int64(len(long)))
+		}
+		keep := snapshot(pp)
+		if err := p.UpdateFromGenesis(&alonzo.AlonzoGenesis{CostModels: alonzo.AlonzoGenesisCostModels{"PlutusV1": long}}); err != nil {
+			return 0, false
+		}
+		for k, v := range keep { // the genesis path replaces the whole table; keep the other languages
+			if _, ok := p.CostModels[k]; !ok {
+				p.CostModels[k] = v
+			}
+		}
+		return 0, true
+	case *conway.ConwayProtocolParameters:
+		if len(cm) == 0 {
+			cm = []int64{1}
+		}
+		if err := p.UpdateFromGenesis(&conway.ConwayGenesis{PlutusV3CostModel: append([]int64{}, cm...)}); err != nil {
+			return 0, false
+		}
+		return 2, true
+	case *dijkstra.DijkstraProtocolParameters:
+		if len(cm) == 0 {
+			cm = []int64{1}
+		}
+		if err := p.ConwayProtocolParameters.UpdateFromGenesis(&conway.ConwayGenesis{PlutusV3CostModel: append([]int64{}, cm...)}); err != nil {
+			return 0, false
+		}
+		return 2, true
+	}
+	return 0, false
+}
+
+type history struct {
+	c     *vh.Ctx
+	cf    *vh.CaseFile
+	e     *eraT
+	objs  []common.ProtocolParameters
+	steps []hstep
+	last  string // the last mutation kind applied to any object
+}
+
+func newHistory(c *vh.Ctx, cf *vh.CaseFile, e *eraT, init []map[uint][]int64) *history {
+	h := &history{c: c, cf: cf, e: e, last: "none"}
+	for i, m := range init {
+		cp := map[uint][]int64{}
+		for k, v := range m {
+			cp[k] = append([]int64{}, v...)
+			h.steps = append(h.steps, hstep{Op: "direct", Obj: i, V: k, CM: v})
+		}
+		h.objs = append(h.objs, e.pp(cp))
+	}
+	return h
+}
+
+func (h *history) mutate(op string, obj int, v uint, cm []int64) uint {
+	pp := h.objs[obj]
+	switch op {
+	case "direct":
+		m := costModelsOf(pp)
+		if *m == nil {
+			*m = map[uint][]int64{}
+		}
+		(*m)[v] = append([]int64{}, cm...)
+	case "update":
+		applyUpdate(pp, v, cm)
+	case "genesis":
+		gv, ok := applyGenesis(pp, cm)
+		if !ok {
+			return h.mutate("direct", obj, v, cm)
+		}
+		v = gv
+	}
+	h.steps = append(h.steps, hstep{Op: op, Obj: obj, V: v, CM: cm})
+	h.last = op
+	h.c.Res.Distribution["history/mutation/"+op+"/"+h.e.name]++
+	return v
+}
+
+func (h *history) validate(obj int, raw []byte, utxos map[string]string, class string) {
+	h.steps = append(h.steps, hstep{Op: "validate", Obj: obj, Tx: hex.EncodeToString(raw), Utxos: utxos, Class: class})
+	rc := rcase{Kind: "hist", Era: h.e.id, Steps: append([]hstep{}, h.steps...)}
+	ppOverride, rcOverride, keyPrefix = h.objs[obj], &rc, "history-after-"+h.last+"/"
+	defer func() { ppOverride, rcOverride, keyPrefix = nil, nil, "" }()
+	runRule(h.c, h.cf, h.e, raw, utxos, snapshot(h.objs[obj]), false, class)
+}
+
+// replayHistory re-executes a recorded history on fresh objects.
+func replayHistory(c *vh.Ctx, cf *vh.CaseFile, e *eraT, steps []hstep) {
+	n := 0
+	for _, s := range steps {
+		if s.Obj >= n {
+			n = s.Obj + 1
+		}
+	}
+	init := make([]map[uint][]int64, n)
+	h := newHistory(c, cf, e, init)
+	h.steps = nil
+	for _, s := range steps {
+		if s.Op == "validate" {
+			h.validate(s.Obj, vh.UnHex(s.Tx), s.Utxos, "replay/"+s.Class)
+		} else {
+			h.mutate(s.Op, s.Obj, s.V, s.CM)
+		}
+	}
+}
+
+// specFor builds a transaction spec using exactly the language set `langs`
+// (witness scripts for V1..V3, a reference script for V4).
+func specFor(r *vh.Rng, e *eraT, langs []uint, cms map[uint][]int64, hashMode int) *txSpec {
+	s := &txSpec{era: e, dropCM: -1, hashMode: hashMode, redForm: 1, nRed: 1 + r.Intn(2), inKinds: []int{-1}, cms: cms}
+	if e.id >= conway.TxTypeConway {
+		s.redForm = 2
+	}
+	if r.Intn(3) == 0 {
+		s.datForm, s.nDat = 1, 1
+	}
+	for _, v := range langs {
+		switch v {
+		case 0:
+			s.v1 = true
+		case 1:
+			s.v2 = true
+		case 2:
+			s.v3 = true
+		case 3:
+			s.refKinds = append(s.refKinds, 4)
+		}
+	}
+	return s
+}
+
+func eraLangs(e *eraT) []uint {
+	switch {
+	case e.id >= conway.TxTypeConway:
+		return []uint{0, 1, 2, 3}
+	case e.id >= babbage.TxTypeBabbage:
+		return []uint{0, 1}
+	}
+	return []uint{0}
+}
+
+func pickLangs(r *vh.Rng, e *eraT) []uint {
+	all := eraLangs(e)
+	var out []uint
+	for _, v := range all {
+		if r.Bool() {
+			out = append(out, v)
+		}
+	}
+	if len(out) == 0 {
+		out = []uint{all[r.Intn(len(all))]}
+	}
+	return out
+}
+
+func smallCM(r *vh.Rng) []int64 {
+	cm := make([]int64, 1+r.Intn(6))
+	for i := range cm {
+		cm[i] = int64(r.Intn(100000)) - 1000
+	}
+	return cm
+}
+
+func runHistories(c *vh.Ctx, cf *vh.CaseFile) {
+	r := c.Rng
+	for i := range eras {
+		e := &eras[i]
+		langsAll := eraLangs(e)
+		// (a) scripted: for every mutation path and a couple of language sets:
+		// validate on both objects, change a used language's cost model on one
+		// object, validate old-hash / new-hash on it and the untouched object
+		for _, op := range []string{"direct", "update", "genesis"} {
+			for rep := 0; rep < c.Pick(2, 6); rep++ {
+				init := []map[uint][]int64{{}, {}}
+				for _, v := range []uint{0, 1, 2, 3} {
+					init[0][v], init[1][v] = smallCM(r), smallCM(r)
+				}
+				h := newHistory(c, cf, e, init)
+				langs := pickLangs(r, e)
+				other := pickLangs(r, e)
+				for obj := 0; obj < 2; obj++ {
+					bt := build(r, specFor(r, e, langs, snapshot(h.objs[obj]), 0))
+					h.validate(obj, bt.raw, bt.utxos, "history/warm-up/"+e.name)
+				}
+				bt := build(r, specFor(r, e, other, snapshot(h.objs[0]), 0))
+				h.validate(0, bt.raw, bt.utxos, "history/other-language-set/"+e.name)
+				old := snapshot(h.objs[0])
+				v := langs[r.Intn(len(langs))]
+				if op == "genesis" { // the genesis paths can only set one fixed language
+					if e.id >= conway.TxTypeConway {
+						v = 2
+					} else {
+						v = 0
+					}
+					found := false
+					for _, l := range langs {
+						found = found || l == v
+					}
+					if !found {
+						langs = append(langs, v)
+						bt := build(r, specFor(r, e, langs, snapshot(h.objs[0]), 0))
+						h.validate(0, bt.raw, bt.utxos, "history/warm-up/"+e.name)
+					}
+				}
+				if !containsU(langsAll, v) {
+					continue
+				}
+				h.mutate(op, 0, v, smallCM(r))
+				cur := snapshot(h.objs[0])
+				// hash computed for the OUTDATED cost models: must be rejected now
+				bt = build(r, specFor(r, e, langs, old, 0))
+				h.validate(0, bt.raw, bt.utxos, "history/old-hash-after-"+op+"/"+e.name)
+				// hash for the CURRENT cost models: must be accepted
+				bt = build(r, specFor(r, e, langs, cur, 0))
+				h.validate(0, bt.raw, bt.utxos, "history/new-hash-after-"+op+"/"+e.name)
+				// the other object is untouched
+				bt = build(r, specFor(r, e, langs, snapshot(h.objs[1]), 0))
+				h.validate(1, bt.raw, bt.utxos, "history/untouched-object/"+e.name)
+				bt = build(r, specFor(r, e, other, cur, 0))
+				h.validate(0, bt.raw, bt.utxos, "history/other-language-set/"+e.name)
+			}
+		}
+		// (b) random interleavings on two objects
+		for k := 0; k < c.Pick(2, 12); k++ {
+			init := []map[uint][]int64{{}, {}}
+			for _, v := range []uint{0, 1, 2, 3} {
+				init[0][v], init[1][v] = smallCM(r), smallCM(r)
+			}
+			h := newHistory(c, cf, e, init)
+			prev := []map[uint][]int64{snapshot(h.objs[0]), snapshot(h.objs[1])}
+			for step := 0; step < c.Pick(10, 16); step++ {
+				obj := r.Intn(2)
+				if r.Intn(3) == 0 {
+					prev[obj] = snapshot(h.objs[obj])
+					h.mutate(vh.PickOne(r, []string{"direct", "update", "genesis"}), obj, vh.PickOne(r, langsAll), smallCM(r))
+					continue
+				}
+				cms, cls := snapshot(h.objs[obj]), "history/random/current-hash/"
+				if r.Intn(3) == 0 {
+					cms, cls = prev[obj], "history/random/previous-hash/"
+				}
+				bt := build(r, specFor(r, e, pickLangs(r, e), cms, 0))
+				h.validate(obj, bt.raw, bt.utxos, cls+e.name)
+			}
+		}
+	}
+}
+
+func containsU(xs []uint, v uint) bool {
+	for _, x := range xs {
+		if x == v {
+			return true
+		}
+	}
+	return false
 }
 
 // ---------------------------------------------------------------------------
@@ -1017,7 +1374,7 @@ func shuffle(r *vh.Rng, xs []uint) []uint {
 }
 
 func run(c *vh.Ctx) error {
-	c.Res.Rule = "EncodeLangViews: every subset of PlutusV1..V4 (presented in shuffled order) x cost models; a length grid per language: 0, 1, 23, 24, 255, 256, 257, 1000 entries (every array / byte-string header width; explicit lists with boundary integers and uniform lists built inside Coq), thorough also 5000, 65532, 65535..65537, 70000; random lengths 0..12, 23..25, 166..297; values over the whole int64 range incl. header-width boundaries, plus missing-cost-model and unsupported-version errors, nil vs empty slices; ShortLex on byte-string pairs of equal/different lengths; rule: Alonzo/Babbage/Conway/Dijkstra transactions decoded from bytes, redeemers absent / list / map / empty, datums absent / array / tag-258 set / empty, non-canonical and indefinite encodings of both, PlutusV1..V3 witness scripts, reference scripts on reference and regular inputs (native, V1..V4, unresolvable), declared hash correct / absent / random / computed from one changed piece / computed under different cost models, one cost model missing. distinct by (tx bytes, cost models); non-trivial = redeemers or datums or a declared hash present (rule), at least one non-empty view or two languages (encoding)"
+	c.Res.Rule = "EncodeLangViews: every subset of PlutusV1..V4 (presented in shuffled order) x cost models; a length grid per language: 0, 1, 23, 24, 255, 256, 257, 1000 entries (every array / byte-string header width; explicit lists with boundary integers and uniform lists built inside Coq), thorough also 5000, 65532, 65535..65537, 70000; random lengths 0..12, 23..25, 166..297; values over the whole int64 range incl. header-width boundaries, plus missing-cost-model and unsupported-version errors, nil vs empty slices; ShortLex on byte-string pairs of equal/different lengths; rule: Alonzo/Babbage/Conway/Dijkstra transactions decoded from bytes, redeemers absent / list / map / empty, datums absent / array / tag-258 set / empty, non-canonical and indefinite encodings of both, PlutusV1..V3 witness scripts, reference scripts on reference and regular inputs (native, V1..V4, unresolvable), declared hash correct / absent / random / computed from one changed piece / computed under different cost models, one cost model missing; validation HISTORIES on two long-lived parameter objects per era: warm-up validations, a used language's cost model changed in place (direct map write / the era's Update with a decoded update payload / UpdateFromGenesis), then the hash for the outdated models (must be rejected), the hash for the current models (accepted), the untouched object and another language set, plus random interleavings; every verdict compared with the stateless model on the current cost models. distinct by (tx bytes, cost models); non-trivial = redeemers or datums or a declared hash present (rule), at least one non-empty view or two languages (encoding)"
 	c.Res.Modelled = []string{
 		"Blake2b-256 is a Section variable in the theorems; in the correspondence it is the finite table of (preimage, digest) pairs the harness computed with golang.org/x/crypto/blake2b for the specified preimage and its plausible variants (any other preimage hashes to the empty string, which never equals a declared 32-byte hash)",
 		"the third-party encoder (shortest-form heads for int64, []byte, []int64) is modelled by head_min; validated byte for byte on every EncodeLangViews case",
@@ -1040,6 +1397,8 @@ func run(c *vh.Ctx) error {
 		switch r.Kind {
 		case "lang":
 			runLang(c, cf, r.Used, cmsFromJSON(r.Cms, r.NilEmpty), r.NilEmpty, "replay")
+		case "hist":
+			replayHistory(c, cf, eraByID(r.Era), r.Steps)
 		case "langrep":
 			runLangRep(c, cf, r.Used, cmsFromJSON(r.Cms, false), r.RepV, r.RepN, r.RepZ, "replay")
 		case "lex":
@@ -1281,6 +1640,10 @@ func run(c *vh.Ctx) error {
 		runRule(c, cf, e, bt.raw, bt.utxos, cms, nilEmpty, class)
 	}
 	cf.Flush()
+	cfH := c.NewCaseFile("c31hist", header)
+	cfH.SetShardSize(c.Pick(60, 150))
+	runHistories(c, cfH)
+	cfH.Flush()
 	return nil
 }
 
